@@ -723,12 +723,16 @@ fn size_bucket(b: usize) -> &'static str {
         "pad60-70KiB"
     } else if b <= 512 * 1024 {
         "pad70-512KiB"
-    } else {
+    } else if b <= 16 * 1024 * 1024 {
         "pad>512KiB"
+    } else {
+        "pad>16MiB"
     }
 }
 
-pub const REPLY_FAULTS: [&str; 13] = [
+pub const REPLY_FAULTS: [&str; 15] = [
+    "truncated-model-after-minus",
+    "truncated-model-at-byte",
     "zero-mid-model",
     "garbage-after-reply",
     "double-status-unsat-first",
@@ -771,6 +775,8 @@ fn gen_exchange(ctx: &Ctx, rng: &mut Rng, idx: u64) -> ExchangeCase {
                 2 | 3 | 4 => (60 + rng.below(11)) * 1024,
                 5 => 256 * 1024,
                 6 => rng.range(1, 64) * 1024,
+                // now and then tens of MiB (any in-memory bound on the reply that is smaller than that)
+                _ if rng.pct(15) => *rng.pick(&[17usize, 20, 33, 40]) * 1024 * 1024 + rng.below(200_000),
                 _ => 4 * 1024 * 1024,
             };
             if pad > 0 {
@@ -810,6 +816,7 @@ fn gen_exchange(ctx: &Ctx, rng: &mut Rng, idx: u64) -> ExchangeCase {
         _ => {
             let f = REPLY_FAULTS[rng.below(REPLY_FAULTS.len())];
             opts.push(format!("fault={}@*", f));
+            opts.push(format!("cut={}", rng.below(1000)));
             opts.push(format!("vsplit={}", rng.pick(&[0usize, 1, 10])));
             bucket_parts.push(format!("malformed-reply/{}", f));
         }
@@ -984,7 +991,15 @@ fn c17_static<T: HLabel>(ctx: &mut Ctx, case: &StaticCase, built: &Built<T>, rng
             },
             None => Query {
                 kind: t.kind,
-                args: if t.kind == QKind::SE { vec![] } else { vec![rng.below(case.abs.n)] },
+                args: if t.kind == QKind::SE {
+                    vec![]
+                } else if case.abs.n >= 2 && rng.pct(35) {
+                    // a list of 2-3 arguments (often in different components: more SAT-call sites are reached)
+                    ctx.count("injected/queries-over-argument-lists");
+                    (0..2 + rng.below(2)).map(|_| rng.below(case.abs.n)).collect()
+                } else {
+                    vec![rng.below(case.abs.n)]
+                },
                 cert: rng.pct(50),
             },
         };
@@ -1124,7 +1139,7 @@ fn c17_external<T: HLabel>(ctx: &mut Ctx, case: &StaticCase, built: &Built<T>, r
             for j in js {
                 ctx.eval();
                 reset(&state);
-                let faulty = Backend::External(msat_path(ctx), vec![st.clone(), format!("fault={}@{}", kind, j)]);
+                let faulty = Backend::External(msat_path(ctx), vec![st.clone(), format!("fault={}@{}", kind, j), format!("cut={}", rng.below(1000))]);
                 let r = ask_fresh(built, t.ty, enc, monitor::plain_factory(faulty), &q);
                 let reached: usize = std::fs::read_to_string(state.join("counter")).ok().and_then(|s| s.trim().parse().ok()).unwrap_or(0);
                 if reached < j {
@@ -1293,6 +1308,7 @@ fn c17_cli(ctx: &mut Ctx, case: &StaticCase, rng: &mut Rng, focus: Option<&Value
         cmd.args(["--external-sat-solver-opt", &format!("state={}", state.to_string_lossy())]);
         if let Some((k, j)) = &fault {
             cmd.args(["--external-sat-solver-opt", &format!("fault={}@{}", k, j)]);
+            cmd.args(["--external-sat-solver-opt", &format!("cut={}", (j * 137 + k.len() * 61) % 1000)]);
         }
         let out = cmd.output().ok()?;
         let reached: usize = std::fs::read_to_string(state.join("counter")).ok().and_then(|s| s.trim().parse().ok()).unwrap_or(0);
